@@ -39,7 +39,7 @@ NRM = [0, 0, 1, 0, 1, 0]
 UV = [0, 0, 1, 0, 1, 1, 0, 1]
 
 
-def geometry(gid, prims, with_uv=True):
+def geometry(gid, prims, with_uv=True, extra=True):
     """prims: list of xml snippets using #<gid>-v (vertices, offset 0), #<gid>-n, #<gid>-uv"""
     s = '<geometry id="%s" name="%s"><mesh>' % (gid, gid)
     s += fsource(gid + '-p', QUAD, 'XYZ')
@@ -48,7 +48,12 @@ def geometry(gid, prims, with_uv=True):
         s += fsource(gid + '-uv', UV, 'ST')
     s += '<vertices id="%s-v"><input semantic="POSITION" source="#%s-p"/></vertices>' % (gid, gid)
     s += ''.join(prims)
-    s += '</mesh></geometry>'
+    s += '</mesh>'
+    if extra:
+        # vendor content that Geometry.load reads
+        s += ('<extra><technique profile="GOOGLEEARTH"><double_sided>1</double_sided></technique>'
+              '<technique profile="MAX3D"><double_sided>0</double_sided></technique></extra>')
+    s += '</geometry>'
     return s
 
 
@@ -111,8 +116,9 @@ def effect_textured(eid, imgid):
             '<diffuse><texture texture="%s-samp" texcoord="UV0"/></diffuse>'
             '<reflectivity><param ref="%s-f"/></reflectivity>'
             '</lambert></technique></profile_COMMON>'
-            '<extra><technique profile="GOOGLEEARTH"><double_sided>1</double_sided></technique></extra>'
-            '</effect>' % (eid, eid, imgid, eid, eid, eid, eid, eid))
+            '<extra><technique profile="GOOGLEEARTH"><double_sided>1</double_sided></technique>'
+            '<technique profile="FCOLLADA"><bump><texture texture="%s-samp" texcoord="UV0"/></bump></technique></extra>'
+            '</effect>' % (eid, eid, imgid, eid, eid, eid, eid, eid, eid))
 
 
 def material(mid, eid):
@@ -125,7 +131,8 @@ def image(iid, path):
 
 def lights():
     return ('<library_lights>'
-            '<light id="l-dir"><technique_common><directional><color>1 1 1</color></directional></technique_common></light>'
+            '<light id="l-dir"><technique_common><directional><color>1 1 1</color></directional></technique_common>'
+            '<technique profile="MAYA"><intensity>2</intensity></technique><extra><technique profile="X"><decay>1</decay></technique></extra></light>'
             '<light id="l-amb"><technique_common><ambient><color>0.5 0.5 0.5</color></ambient></technique_common></light>'
             '<light id="l-pt"><technique_common><point><color>1 0.5 0.25</color><constant_attenuation>1</constant_attenuation>'
             '<linear_attenuation>0.5</linear_attenuation><quadratic_attenuation>0.25</quadratic_attenuation><zfar>100</zfar></point></technique_common></light>'
@@ -138,7 +145,8 @@ def lights():
 def cameras():
     return ('<library_cameras>'
             '<camera id="c-persp"><optics><technique_common><perspective><xfov>45</xfov><aspect_ratio>1.5</aspect_ratio>'
-            '<znear>0.5</znear><zfar>1000</zfar></perspective></technique_common></optics></camera>'
+            '<znear>0.5</znear><zfar>1000</zfar></perspective></technique_common><technique profile="MAYA"><film_fit>0</film_fit></technique>'
+            '</optics><extra><technique profile="X"><shutter>0.5</shutter></technique></extra></camera>'
             '<camera id="c-ortho"><optics><technique_common><orthographic><xmag>2</xmag><ymag>4</ymag>'
             '<znear>0.25</znear><zfar>500</zfar></orthographic></technique_common></optics></camera>'
             '</library_cameras>')
@@ -284,10 +292,14 @@ def doc_scopes():
     body += ('<library_geometries>' + geometry('gA', [triangles('gA')], with_uv=False)
              + geometry('gB', [polylist('gB')], with_uv=False) + '</library_geometries>\n')
     body += '<library_controllers>' + skin('skA', 'gA') + skin('skB', 'gB') + '</library_controllers>\n'
-    body += '<library_nodes><node id="lnA" name="lnA">' + inst_geom('gA', (('m0', 'matA'),)) + '</node></library_nodes>\n'
+    body += ('<library_nodes><node id="lnA" name="lnA">' + inst_geom('gA', (('m0', 'matA'),)) + '</node>'
+             '<node id="lnB"><scale>1 2 3</scale>' + inst_geom('gB', (('m0', 'matB'),)) + '<instance_node url="#lnA"/></node>'
+             '</library_nodes>\n')
     body += ('<library_visual_scenes>'
              '<visual_scene id="vsA"><node id="a0">' + inst_geom('gB', (('m0', 'matB'),)) + '</node>'
-             '<node id="a1"><instance_node url="#a0"/><instance_node url="#lnA"/>' + inst_ctrl('skA', (('m0', 'matB'),)) + '</node></visual_scene>'
+             '<node id="a1"><translate>1 2 3</translate>' + inst_ctrl('skA', (('m0', 'matB'),))
+             + '<node id="a1sub"><rotate>0 0 1 90</rotate><instance_node url="#a0"/></node>'
+             '<instance_node url="#lnA"/></node></visual_scene>'
              '<visual_scene id="vsB"><node id="b0">' + inst_ctrl('skB', (('m0', 'matA'),)) + '</node>'
              '<node id="b1"><instance_node url="#b0"/></node></visual_scene>'
              '</library_visual_scenes>\n')
